@@ -13,10 +13,23 @@ if ! go build -o bin/vcheck ./cmd/vcheck 2> bin/build.err; then
   exit 2
 fi
 if [ "$1" = "replay" ]; then
+  if grep -q '"property": "C20"' "$2" 2>/dev/null; then
+    ov="$(mktemp -d /tmp/verif-overlay-XXXXXX)"; trap 'rm -rf "$ov"' EXIT
+    go run ./tools/mkoverlay "$ov" > bin/overlay.log 2>&1 && go build -overlay "$ov/overlay.json" -o bin/vcheck-c20 ./cmd/vcheck && go build -race -o bin/racepass ./cmd/racepass || exit 2
+    bin/vcheck-c20 replay "$2"; exit $?
+  fi
   exec bin/vcheck replay "$2"
 fi
 id="$1"; tier="${2:-${VERIF_TIER:-quick}}"
-if [ -x "checks/pre_$id.sh" ]; then
-  "checks/pre_$id.sh" "$tier" || exit $?
+if [ "$id" = "C20" ]; then
+  # C20 needs (a) a build in which the repository's "sync" import is rewritten to the scheduler shim (go build -overlay,
+  # generated from the current working tree; /repo itself is not touched) and (b) a -race build of the free-running pass.
+  ov="$(mktemp -d /tmp/verif-overlay-XXXXXX)"
+  trap 'rm -rf "$ov"' EXIT
+  go run ./tools/mkoverlay "$ov" > bin/overlay.log 2>&1 || { echo "BUILD-ERROR: overlay generation failed" >&2; cat bin/overlay.log >&2; exit 2; }
+  go build -overlay "$ov/overlay.json" -o bin/vcheck-c20 ./cmd/vcheck 2> bin/build.err || { echo "BUILD-ERROR: overlay build failed:" >&2; cat bin/build.err >&2; exit 2; }
+  go build -race -o bin/racepass ./cmd/racepass 2> bin/build.err || { echo "BUILD-ERROR: -race build failed:" >&2; cat bin/build.err >&2; exit 2; }
+  bin/vcheck-c20 run "$id" "$tier"; rc=$?
+  exit $rc
 fi
 exec bin/vcheck run "$id" "$tier"
